@@ -4,6 +4,7 @@ import (
 	"encoding/json"
 	"fmt"
 	"os"
+	"time"
 
 	"github.com/couchbase/moss"
 )
@@ -38,6 +39,7 @@ func runFaulted(t TB, p *Program, f *FaultSpec) (nOps int, hits int, kinds map[s
 	h = RunHistoryWith(t, p, o, func(e *Env) {
 		e.Dir = newCaseDir()
 		e.FS = NewFS(e.Dir)
+		e.FS.DelayAfterFault = 2 * time.Millisecond
 		e.curStep = &cur
 		if f != nil {
 			spec := *f
